@@ -47,6 +47,10 @@ def build_inputs(case):
     real, shape = case["real"], case["shape"]
     if real == "grid":
         g = crops.grid_from_shape(shape)
+        if case.get("uni_names"):
+            # argument names that are not in NFKC form (micro sign, ohm sign)
+            g = crops.grid_from_shape(shape, names=("\u00b5", "a", "\u2126",
+                                                    "d"))
         if case.get("np_dtype"):
             # values handed over as a numpy array of a small dtype: the
             # function receives numpy scalars of that dtype
@@ -74,6 +78,9 @@ def run_case(case):
         # a sow-time constant that repeats a stored one takes precedence,
         # exactly as in Runner.run_combos(constants=...)
         consts["p"] = 7
+        if N % 2:
+            # ... and one that repeats a stored RESOURCE
+            consts["tab"] = "s"
     consts_given = dict(consts)
     with core.scratch("xv-c07-") as root:
         fn = crops.record("int", None)
@@ -82,9 +89,12 @@ def run_case(case):
         if spec is not None:
             (ckw if case["where"] == "ctor" else skw)[spec[0]] = spec[1]
         if case["farmer"]:
+            # (a name stored both as constant and as resource: the constant
+            # counts, as in Runner.run_combos)
             runner = x.Runner(fn, "out", fn_args=fn_args,
-                              constants={"p": 3}, resources={"big": [1, 2]})
-            extra = {"p": 3, "big": [1, 2]}
+                              constants={"p": 3, "u": 4},
+                              resources={"big": [1, 2], "u": 99, "tab": "r"})
+            extra = {"p": 3, "u": 4, "big": [1, 2], "tab": "r"}
             mk = lambda **k: runner.Crop(name="c7", parent_dir=root, **k)
         else:
             extra = {}
@@ -269,6 +279,38 @@ def run_case(case):
             require(B2 == B, "resow-changed-batch-count",
                     f"N={N} spec={spec}: {B} batches, {B2} after sowing the "
                     f"same work again")
+        if B >= 10 and cases is None and not shuffle:
+            # the folder is then sown afresh into FEWER batches (a new Crop
+            # that does not load the old settings): batches 1..3 are the new
+            # partition (what becomes of the old files 4.. is not this
+            # property's business)
+            import xyzpy.gen.cropping as cropping
+            with under_test("fresh sow into fewer batches"):
+                if case["farmer"]:
+                    c3 = cropping.Crop(farmer=runner, name="c7",
+                                       parent_dir=root, num_batches=3,
+                                       autoload=False)
+                else:
+                    c3 = x.Crop(fn=fn, name="c7", parent_dir=root,
+                                num_batches=3, autoload=False)
+                c3.sow_combos(combos, constants=consts, verbosity=0)
+            have = crops.batch_ids(root, "c7")
+            require(set(have) >= {1, 2, 3}, "batch-ids",
+                    f"after sowing into 3 batches the batch files are {have}")
+            new3 = [crops.read_batch(root, "c7", i) for i in (1, 2, 3)]
+            sizes3 = [len(b) for b in new3]
+            require(sum(sizes3) == N and max(sizes3) - min(sizes3) <= 1,
+                    "unbalanced", f"N={N} into 3 batches: sizes {sizes3}")
+            models.LOG.clear()
+            x.combo_runner(fn, combos, constants={**extra, **consts},
+                           verbosity=0)
+            want3 = collections.Counter(models.canon_kw(kw)
+                                        for kw in models.LOG)
+            got3 = collections.Counter(models.canon_kw(kw)
+                                       for b in new3 for kw in b)
+            require(got3 == want3, "not-a-partition",
+                    f"N={N}: batches 1-3 of the fresh sow do not hold the "
+                    f"settings exactly once")
     nt = (N % B != 0) or (spec is not None and spec[1] > N)
     return {"nontrivial": nt,
             "classes": [f"real={case['real']}", f"shuffle={shuffle}",
@@ -306,6 +348,8 @@ def enumerate_cases(tier, seed):
                     c = {"N": N, "real": real, "shape": list(shape),
                          "spec": spec, "shuffle": sh, "where": where,
                          "farmer": farmer, "resow": rs}
+                    if real == "grid" and (i + j + v) % 5 == 1:
+                        c["uni_names"] = True
                     if real == "grid" and (i + j + v) % 4 == 0:
                         c["np_dtype"] = ["uint8", "float32", "int64",
                                          "int16"][(i + v + N) % 4]
